@@ -412,3 +412,36 @@ def simpler(v):
     if t not in ("int", "none") and t not in ("str",):
         out.append(["int", 0])
     return out
+
+
+def gen_mutable(rng, prof):
+    """a mutable value and the in-place mutation statements that apply to it ({var} placeholder)"""
+    k = rng.choice(["list", "list", "dict", "set", "dc", "nested", "tuple_inner", "dc_inner", "dictlist"])
+    ints = lambda n: [["int", rng.randint(0, 9)] for _ in range(n)]
+    if k == "list":
+        v = ["list", ints(rng.randint(0, 3))]
+        muts = ["{var}.append(99)", "{var}.clear()", "{var}.insert(0, -1)", "{var}.extend([7, 8])"]
+        if v[1]:
+            muts += ["{var}[0] = 77", "{var}.pop()"]
+    elif k == "dict":
+        v = ["dict", [[["str", "k"], ["int", 1]], [["int", 2], ["list", ints(1)]]]]
+        muts = ["{var}['new'] = 5", "{var}.clear()", "{var}['k'] = 'changed'", "{var}[2].append(4)", "del {var}['k']"]
+    elif k == "set":
+        v = ["set", [["int", 1], ["int", 5]]]
+        muts = ["{var}.add(99)", "{var}.clear()", "{var}.discard(1)"]
+    elif k == "dc":
+        v = ["dc", "DC", [["a", ["int", 1]], ["c", ["list", ints(2)]]]]
+        muts = ["{var}.a = 42", "{var}.c.append(3)", "{var}.b = 'set'", "{var}.c.clear()"]
+    elif k == "nested":
+        v = ["list", [["list", ints(2)], ["dict", [[["str", "x"], ["int", 0]]]]]]
+        muts = ["{var}[0].append(5)", "{var}[1]['x'] = 9", "{var}[1]['y'] = []", "{var}.append([1])", "{var}[0].clear()"]
+    elif k == "tuple_inner":
+        v = ["tuple", [["str", "t"], ["list", ints(rng.randint(0, 2))]]]
+        muts = ["{var}[1].append(6)", "{var}[1].clear()", "{var}[1].insert(0, 0)"]
+    elif k == "dc_inner":
+        v = ["dc", "NT", [["f", ["list", ints(1)]], ["g", ["dict", []]]]]
+        muts = ["{var}.f.append(2)", "{var}.g['k'] = 1"]
+    else:
+        v = ["dict", [[["str", "rows"], ["list", [["list", ints(1)]]]]]]
+        muts = ["{var}['rows'].append([0])", "{var}['rows'][0].append(3)"]
+    return v, muts
